@@ -125,6 +125,9 @@ int32_t jls_buf_string_save(struct jls_buf_s * self, const char * cstr_in, char 
     if (NULL == self->strings_tail) {
         ROE(strings_alloc(self));
     }
+    if (NULL == cstr_in) {
+        cstr_in = "";  // absent strings are stored as empty strings
+    }
     size_t sz = strlen(cstr_in) + 1;
     struct jls_buf_strings_s * s = self->strings_tail;
     char * buf_end = s->buffer + sizeof(s->buffer) - 1;
